@@ -27,6 +27,28 @@ from ..ir import field_of_gep
 STR = "LHAInputStream"
 
 
+def move_always_precedes(fn, F, M, start_block, store, moves, lenpat):
+    """every path from start_block to the store of the new leadin_len passes a memmove of the remaining bytes - or an edge on which nothing
+    remains (dropped count == leadin_len), where there is nothing to move.  A guard that skips the move while a byte is left replays a stale
+    byte as the first byte of the next read."""
+    cut = set()
+    for mv in moves:
+        if mv.block.id == store.block.id and mv.idx < store.idx:
+            return True
+        cut |= {(mv.block.id, x) for x in fn.blocks[mv.block.id].succs}
+    for b in fn.blocks:
+        for x in b.succs:
+            for f in F.edge_facts(b.id, x):
+                # n == leadin_len, n >= leadin_len : nothing left over
+                if f[0] in ("eq", "uge") and M.match(lenpat, f[2], {}) is not None and not is_const(f[1]):
+                    cut.add((b.id, x))
+                if f[0] in ("eq", "ule") and M.match(lenpat, f[1], {}) is not None and not is_const(f[2]):
+                    cut.add((b.id, x))
+    if start_block == store.block.id:
+        return False
+    return not F.reaches_avoiding(start_block, store.block.id, cut)
+
+
 class Lin:
     """integer operand as {atom operand: coeff} + const (atoms: SSA values that are not +/- const or widenings)"""
 
@@ -60,7 +82,78 @@ class Lin:
             if isinstance(c, int) and c >= (1 << 31) and d.ty == "i32":
                 c -= (1 << 32)
             return ({k: v for k, v in co.items() if v}, c)
+        if d.op in ("phi", "select") and depth < 8:
+            x = self._identity_clamp(d)
+            if x is not None:
+                return self.of(x, depth + 1)
         return ({("v", d.id): 1}, 0)
+
+    # -- `if (n > stream->leadin_len) n = stream->leadin_len;` where n can be shown not to exceed the buffered count: the clamp never binds ----
+    def _is_leadin_len(self, o):
+        M = Matcher(self.fn)
+        return M.match(("load", ("field", "_LHAInputStream", "leadin_len", ANY)), o, {}) is not None or \
+            M.match(("load", ("field", "LHAInputStream", "leadin_len", ANY)), o, {}) is not None
+
+    def _le_leadin(self, x, at_block, depth=0):
+        """x <= leadin_len wherever at_block runs: x is itself min(.., leadin_len); a fact x + c < leadin_len (c >= 0) holds there; or x is a
+        counter that starts at 0 and is raised by one only on edges carrying such a fact for its previous value"""
+        fn = self.fn
+        M = Matcher(fn)
+        if getattr(self, "_F", None) is None:
+            self._F = Facts(fn)
+        F = self._F
+        if is_const(x):
+            return const_val(x) == 0
+        for f in F.at_block(at_block):
+            if f[0] in ("ult", "ule") and self._is_leadin_len(f[2]):
+                l = self.of(f[1], 9)
+                lx = self.of(x, 9)
+                if l is not None and lx is not None and l[0] == lx[0] and l[1] - lx[1] >= 0:
+                    return True
+        d = fn.defn(M.strip(x))
+        if d is None or d.is_param or depth > 3:
+            return False
+        if d.op in ("phi", "select"):
+            vals = [(v, pb) for v, pb in d.incoming] if d.op == "phi" else [(v, None) for v in d.ops[1:]]
+            # min shape: one arm is leadin_len itself
+            if any(self._is_leadin_len(v) for v, _ in vals) and len(vals) == 2:
+                return True
+            ok = True
+            for v, pb in vals:
+                if is_const(v) and const_val(v) == 0:
+                    continue
+                e = M.match(("bin", "add", ("inst", d.id), ("bind", "c", ("const",))), v, {})
+                if e is not None and pb is not None and const_val(e["c"]) == 1:
+                    fs = F.on_edge(pb, d.block.id)
+                    good = False
+                    for f in fs:
+                        if f[0] == "ult" and self._is_leadin_len(f[2]):
+                            l = self.of(f[1], 9)
+                            if l is not None and l[0] == {("v", d.id): 1} and l[1] >= 0:
+                                good = True
+                    if good:
+                        continue
+                ok = False
+            return ok
+        return False
+
+    def _identity_clamp(self, d):
+        """d = min(x, leadin_len) written as a select or a two-armed phi, with x <= leadin_len known: x"""
+        vals = [v for v, _ in d.incoming] if d.op == "phi" else d.ops[1:]
+        if len(vals) != 2:
+            return None
+        ls = [v for v in vals if self._is_leadin_len(v)]
+        xs = [v for v in vals if not self._is_leadin_len(v)]
+        if len(ls) != 1 or len(xs) != 1:
+            return None
+        blk = d.block.id
+        if d.op == "phi":
+            # judged where the two arms part: the nearest common dominator of the incoming edges is the clamp's own test
+            preds = [pb for _, pb in d.incoming]
+            doms = [b.id for b in self.fn.blocks if all(self.fn.dominates(b.id, pb) for pb in preds)]
+            if doms:
+                blk = max(doms, key=lambda b: sum(1 for x_ in self.fn.blocks if self.fn.dominates(x_.id, b)))
+        return xs[0] if self._le_leadin(xs[0], blk) else None
 
     def addr(self, o, depth=0):
         """pointer operand as (root, Lin offset in elements of an i8 walk): root = ('field', S, f) for &obj->f[0], ('v', id) otherwise"""
@@ -215,6 +308,9 @@ def run(tier, seed):
                 rep.check(rid, len(sts) == 1 and sts[0][1] == (Iatom, 0), "round end: leadin_len -= i (the number of positions tested)", sts[0][0].where() if sts else fn.file,
                           None if (len(sts) == 1 and sts[0][1] == (Iatom, 0)) else "leadin_len is reduced by %s" % ([s[1] for s in sts],), function="skip_sfx", obj="drop-len")
                 okmv = len(mvs) == 1
+                if okmv and len(sts) == 1:
+                    okmv = all(x_ == sts[0][0].block.id and any(m_.block.id == x_ and m_.idx < sts[0][0].idx for m_ in mvs) or
+                               move_always_precedes(fn, F, M, x_, sts[0][0], mvs, lenld) for x_ in exits)
                 if okmv:
                     dst, src, n = L.addr(mvs[0].ops[0]), L.addr(mvs[0].ops[1]), L.of(mvs[0].ops[2])
                     okmv = dst == (("field", STR, "leadin"), ({}, 0)) and src == (("field", STR, "leadin"), (Iatom, 0)) and n is not None and \
@@ -298,9 +394,17 @@ def run(tier, seed):
                 rep.check(rid, okn and kinds == {"request", "buffered"}, "n = min(buf_len, leadin_len)", c.where(), None if okn else "sources %s" % [describe(fn, s) for s, _ in srcs],
                           function=fn.cname, obj="copy-len")
                 nl = L.of(c.ops[2])
-                dr = [st for st in fn.blocks[c.block.id].insts if st.op == "store" and M.match(("field", STR, "leadin_len", ANY), st.ops[1], {}) is not None]
+                # the drop that follows the copy: in its block, or (a clamp in front of the move puts it a block further on) in a block it dominates
+                dr = [st for b_ in fn.blocks if b_.id == c.block.id or fn.dominates(c.block.id, b_.id) for st in b_.insts
+                      if st.op == "store" and M.match(("field", STR, "leadin_len", ANY), st.ops[1], {}) is not None and (b_.id != c.block.id or st.idx > c.idx)]
                 okd = len(dr) == 1 and (lambda e: e is not None and L.of(e["d"]) == nl)(M.match(("bin", "sub", lenld, ("bind", "d")), dr[0].ops[0], {}))
                 rep.check(rid, okd, "the bytes handed out are dropped from the buffer (leadin_len -= n)", c.where(), None, function=fn.cname, obj="copy-drop")
+                if okd:
+                    mvs_ = [i_ for i_ in fn.insts() if i_.op == "call" and (i_.callee or "").startswith("llvm.memmove") and
+                            (i_.block.id == c.block.id and i_.idx > c.idx or (i_.block.id != c.block.id and fn.dominates(c.block.id, i_.block.id)))]
+                    okm = move_always_precedes(fn, F, M, c.block.id, dr[0], mvs_, lenld)
+                    rep.check(rid, okm, "the bytes left over are moved to the front before the length is updated (on every path, unless nothing is left)", dr[0].where(),
+                              None if okm else "the new length can be stored without the move although bytes remain: the next read replays a stale byte", function=fn.cname, obj="copy-move")
             # the source read after the replay: at buf + total for buf_len - total
             calls = [c for c in fn.insts() if c.op == "call" and not c.callee and len(c.ops) >= 3 and (not scan or c.block.id not in (outer["body"] if scan and outer else set()))]
             rep.check(rid, len(calls) == 1, "one read from the source after the replay", fn.file, "%d" % len(calls), function=fn.cname, obj="tail-calls")
